@@ -610,6 +610,10 @@ impl Peer {
                     {
                         if l.lib_role == Role::Receiver {
                             l.credit = c;
+                        } else if let Some(dc) = f.delivery_count {
+                            // the sender's delivery-count is authoritative (e.g. after a drain)
+                            l.delivery_count = dc;
+                            l.credit = c;
                         }
                     }
                 }
